@@ -304,6 +304,7 @@ type Parent struct {
 	t0       time.Time
 	selfExe  string
 	raceExe  string
+	isReplay bool
 }
 
 func (pc *Parent) Inconclusive(msg string) { pc.Incon = append(pc.Incon, msg) }
@@ -669,10 +670,13 @@ func (pc *Parent) finish() int {
 			floor = v
 		}
 	}
+	if pc.isReplay {
+		floor = 1
+	}
 	if r.Evals < floor && len(real) == 0 {
 		pc.Inconclusive(fmt.Sprintf("only %d evaluations observed, floor is %d", r.Evals, floor))
 	}
-	if r.Distinct < 2 && len(real) == 0 {
+	if r.Distinct < 2 && len(real) == 0 && !pc.isReplay {
 		pc.Inconclusive("fewer than 2 distinct non-trivial cases observed")
 	}
 
@@ -747,7 +751,11 @@ func (pc *Parent) finish() int {
 	}
 	eb, _ := json.MarshalIndent(ev, "", " ")
 	os.MkdirAll(filepath.Join(outRoot, "evidence"), 0755)
-	os.WriteFile(filepath.Join(outRoot, "evidence", p.ID+".json"), append(eb, '\n'), 0644)
+	evName := p.ID + ".json"
+	if pc.isReplay {
+		evName = p.ID + ".replay.json" // a replay never overwrites the evidence of the last full run
+	}
+	os.WriteFile(filepath.Join(outRoot, "evidence", evName), append(eb, '\n'), 0644)
 
 	fmt.Printf("%s %s seed=%d: evaluations=%d distinct=%d cases=%d violations=%d known=%d masked=%v wall=%.1fs\n", p.ID, pc.Tier, pc.Seed, r.Evals, r.Distinct, pc.NCases, len(real), len(knownSeen), r.Masked, time.Since(pc.t0).Seconds())
 	names := make([]string, 0, len(r.Counters))
@@ -873,6 +881,8 @@ func (pc *Parent) replay(path string) int {
 		pc.Tier = rf.Tier
 	}
 	pc.Seed = rf.Seed
+	pc.isReplay = true
+	fmt.Printf("replaying case %s of %s (violation %s)\n", rf.Violation.Case.String(), pc.P.ID, rf.Violation.Key)
 	pc.runPool([]Case{*rf.Violation.Case})
 	return pc.finish()
 }
